@@ -136,10 +136,14 @@ Qed.
 Lemma wrap_single_tuple_idem : forall v, wrap_single_tuple (wrap_single_tuple v) = wrap_single_tuple v.
 Proof.
   intros v. destruct v; try reflexivity.
+  destruct l as [|x1 l1]; [reflexivity|]. destruct x1; reflexivity.
+Qed.
+Lemma wrap_single_pair_idem : forall v, wrap_single_pair (wrap_single_pair v) = wrap_single_pair v.
+Proof.
+  intros v. destruct v; try reflexivity.
   destruct l as [|x1 l1]; [reflexivity|].
-  destruct x1; try reflexivity;
-    destruct l1 as [|x2 l2]; try reflexivity;
-    destruct x2; try reflexivity; destruct l2; reflexivity.
+  destruct l1 as [|x2 l2]; [reflexivity|].
+  destruct x2; try reflexivity; destruct l2; reflexivity.
 Qed.
 Lemma wrap_float_idem : forall v, wrap_float (wrap_float v) = wrap_float v.
 Proof. intros v. destruct v; reflexivity. Qed.
@@ -150,6 +154,7 @@ Lemma known_wrapper_idem : forall w f v, known_wrapper w = Some f -> f (f v) = f
 Proof.
   unfold known_wrapper. intros w f v H.
   destruct (String.eqb w "single_tuple_to_list"); [inversion H; apply wrap_single_tuple_idem|].
+  destruct (String.eqb w "single_pair_to_list"); [inversion H; apply wrap_single_pair_idem|].
   destruct (String.eqb w "float"); [inversion H; apply wrap_float_idem|].
   destruct (String.eqb w "list"); [inversion H; apply wrap_list_idem|].
   discriminate.
@@ -266,13 +271,17 @@ Proof.
   rewrite forallb_forall in H4, H5. auto 10.
 Qed.
 
-Lemma attr_init : forall s, In s (c_stores d) ->
-  attr_val (init d kw) (ps_attr s) = store_val d kw s.
+Lemma attr_init_any : forall kw0 s, In s (c_stores d) ->
+  attr_val (init d kw0) (ps_attr s) = store_val d kw0 s.
 Proof.
-  intros s Hs. destruct ok_parts as (_ & Hnd & _).
+  intros kw0 s Hs. destruct ok_parts as (_ & Hnd & _).
   unfold attr_val, ConfigModel.init. simpl. rewrite assoc_stores.
   rewrite (find_store_nodup _ _ Hnd Hs). reflexivity.
 Qed.
+Lemma attr_init : forall s, In s (c_stores d) ->
+  attr_val (init d kw) (ps_attr s) = store_val d kw s.
+Proof. intros s Hs. apply attr_init_any. exact Hs. Qed.
+
 
 Lemma assoc_own_config : forall k,
   assoc k (own_config d (init d kw)) =
@@ -385,9 +394,17 @@ Proof.
   destruct (cond_pairb d (ps_param sc) ca) eqn:E; [|discriminate]. inversion H; subst. exact E.
 Qed.
 
-Lemma store_rt : forall s, In s (c_stores d) -> store_val d kw' s = store_val d kw s.
+(* visibility of ONE store: if it is always stored but reported only under
+   `if self.ca`, then the condition holds or the argument was left out *)
+Definition store_visible (s : pstore) : Prop :=
+  forall e ca c, find_emit (ps_param s) (c_emits d) = Some e -> ps_cond s = None ->
+    em_cond e = Some ca -> cond_param_of d ca = Some c ->
+    truthy (arg d kw c) = true \/ assoc (ps_param s) kw = None.
+
+Lemma store_rt_local : forall s, In s (c_stores d) -> store_visible s ->
+  store_val d kw' s = store_val d kw s.
 Proof.
-  intros s Hs. destruct ok_parts as (_ & _ & _ & Hst & _).
+  intros s Hs Hloc. destruct ok_parts as (_ & _ & _ & Hst & _).
   specialize (Hst _ Hs). unfold store_rt_okb in Hst.
   apply andb_true_iff in Hst. destruct Hst as [_ He].
   destruct (find_emit (ps_param s) (c_emits d)) as [e|] eqn:Ee; [|discriminate].
@@ -412,13 +429,19 @@ Proof.
     + assert (Hon : emit_on (init d kw) e = true) by (unfold emit_on; rewrite Eec, Hattr; exact Et).
       rewrite (Hsv kw'). apply (arg_rt_emitted s e Hs Ee Hon (Hsv kw)).
     + assert (Hon : emit_on (init d kw) e = false) by (unfold emit_on; rewrite Eec, Hattr; exact Et).
-      destruct (Hvis _ _ (hidden_pair_In s e ca c Hs Hc Ee Eec Ecp)) as [Ht|Hnone]; [congruence|].
+      destruct (Hloc e ca c Ee Hc Eec Ecp) as [Ht|Hnone]; [congruence|].
       rewrite !Hsv, (arg_rt_omitted s e Hs Ee Hon). unfold arg. rewrite Hnone. reflexivity.
   - (* stored always, written always *)
     assert (Hsv : forall kw0, store_val d kw0 s = apply_how (ps_how s) (arg d kw0 (ps_param s))).
     { intros kw0. unfold ConfigModel.store_val. rewrite Hc. reflexivity. }
     assert (Hon : emit_on (init d kw) e = true) by (unfold emit_on; rewrite Eec; reflexivity).
     rewrite (Hsv kw'). apply (arg_rt_emitted s e Hs Ee Hon (Hsv kw)).
+Qed.
+
+Lemma store_rt : forall s, In s (c_stores d) -> store_val d kw' s = store_val d kw s.
+Proof.
+  intros s Hs. apply store_rt_local; [exact Hs|].
+  intros e ca c Ee Hc Eec Ecp. apply Hvis. eapply hidden_pair_In; eauto.
 Qed.
 
 Lemma base_rt : forall k, In k (c_base_keys d) -> argb kw' k = argb kw k.
@@ -453,6 +476,96 @@ Qed.
 Corollary config_stable :
   get_config d (rebuild d (get_config d (init d kw))) = get_config d (init d kw).
 Proof. rewrite rebuild_get_config_init. reflexivity. Qed.
+
+(* ---- the rebuilt object reports an equal config, WITHOUT the visibility guard ---- *)
+Lemma attr_of_cond_any : forall kw0 c ca, cond_pairb d c ca = true ->
+  attr_val (init d kw0) ca = arg d kw0 c.
+Proof.
+  intros kw0 c ca H. unfold cond_pairb in H. apply andb_true_iff in H. destruct H as [H _].
+  destruct (find_store_by_param c (c_stores d)) as [sc|] eqn:E; [|discriminate].
+  apply find_store_by_param_In in E. destruct E as [Hin Hp].
+  apply andb_true_iff in H. destruct H as [Ha Hh]. apply String.eqb_eq in Ha.
+  destruct (ps_how sc) eqn:Eh; [|discriminate]. destruct (ps_cond sc) eqn:Ec; [discriminate|].
+  rewrite <- Ha, (attr_init_any kw0 _ Hin). unfold ConfigModel.store_val. rewrite Ec, Eh, Hp. reflexivity.
+Qed.
+
+Lemma base_state_rt : snd (init d kw') = snd (init d kw).
+Proof.
+  unfold ConfigModel.init. simpl. apply map_ext_in. intros k Hk. f_equal. apply base_rt. exact Hk.
+Qed.
+
+Hypothesis Hemits : emits_okb d = true.
+
+Lemma emit_rt : forall e, In e (c_emits d) ->
+  emit_on (init d kw') e = emit_on (init d kw) e /\
+  (emit_on (init d kw) e = true -> emit_val (init d kw') e = emit_val (init d kw) e).
+Proof.
+  intros e He. unfold emits_okb in Hemits. rewrite forallb_forall in Hemits. specialize (Hemits _ He).
+  unfold emit_okb in Hemits. apply andb_true_iff in Hemits. destruct Hemits as [Hc Hs].
+  assert (Hon : emit_on (init d kw') e = emit_on (init d kw) e).
+  { unfold emit_on. destruct (em_cond e) as [ca|]; [|reflexivity].
+    destruct (cond_param_of d ca) as [c|] eqn:Ecp; [|discriminate].
+    pose proof (cond_param_of_pair _ _ Ecp) as Hpair.
+    rewrite (attr_of_cond_any kw' _ _ Hpair), (attr_of_cond_any kw _ _ Hpair).
+    destruct (cond_param_rt _ _ Hpair) as [Harg _]. rewrite Harg. reflexivity. }
+  split; [exact Hon|]. intros Hon1.
+  assert (Hattr : forall a, (em_src e = Attr a \/ em_src e = Serialized a) ->
+                  attr_val (init d kw') a = attr_val (init d kw) a).
+  { intros a Hsrc.
+    assert (Hs' : match find_store_by_attr a (c_stores d) with
+                  | None => true
+                  | Some s =>
+                      match ps_cond s, find_emit (ps_param s) (c_emits d) with
+                      | None, Some e0 => match em_cond e0 with
+                                         | None => true
+                                         | Some ca0 => match em_cond e with
+                                                       | Some ca => String.eqb ca ca0
+                                                       | None => false
+                                                       end
+                                         end
+                      | Some _, Some _ => true
+                      | _, None => false
+                      end
+                  end = true).
+    { destruct Hsrc as [Hx|Hx]; rewrite Hx in Hs; exact Hs. }
+    destruct (find_store_by_attr a (c_stores d)) as [s|] eqn:Ef.
+    - apply find_store_by_attr_In in Ef. destruct Ef as [Hin Ha]. subst a.
+      rewrite (attr_init_any kw' _ Hin), (attr_init_any kw _ Hin).
+      apply store_rt_local; [exact Hin|].
+      intros e0 ca0 c0 Ee0 Hcs Eec0 Ecp0. left.
+      rewrite Hcs, Ee0, Eec0 in Hs'.
+      destruct (em_cond e) as [ca|] eqn:Eec; [|discriminate]. apply String.eqb_eq in Hs'. subst ca.
+      pose proof (cond_param_of_pair _ _ Ecp0) as Hpair.
+      unfold emit_on in Hon1. rewrite Eec, (attr_of_cond_any kw _ _ Hpair) in Hon1. exact Hon1.
+    - unfold attr_val, ConfigModel.init. simpl. rewrite !assoc_stores, Ef. reflexivity. }
+  unfold ConfigModel.emit_val. destruct (em_src e) as [a|a|k|] eqn:Esrc.
+  - apply Hattr. left. reflexivity.
+  - f_equal. apply Hattr. right. reflexivity.
+  - unfold base_val. rewrite base_state_rt. reflexivity.
+  - reflexivity.
+Qed.
+
+Lemma map_filter_ext : forall (g1 g2 : emit -> value) (on1 on2 : emit -> bool) (l : list emit),
+  (forall e, In e l -> on1 e = on2 e /\ (on2 e = true -> g1 e = g2 e)) ->
+  map (fun e => (em_key e, g1 e)) (filter on1 l) = map (fun e => (em_key e, g2 e)) (filter on2 l).
+Proof.
+  induction l as [|e r IH]; intros H; [reflexivity|]. simpl.
+  destruct (H e (or_introl eq_refl)) as [Hon Hg]. rewrite Hon.
+  assert (Hr : forall e0, In e0 r -> on1 e0 = on2 e0 /\ (on2 e0 = true -> g1 e0 = g2 e0)).
+  { intros e0 H0. apply H. right. exact H0. }
+  destruct (on2 e) eqn:E; simpl.
+  - rewrite (Hg eq_refl), (IH Hr). reflexivity.
+  - apply IH. exact Hr.
+Qed.
+
+Theorem config_stable_strong :
+  get_config d (rebuild d (get_config d (init d kw))) = get_config d (init d kw).
+Proof.
+  unfold ConfigModel.rebuild. fold kw'.
+  assert (Hown : own_config d (init d kw') = own_config d (init d kw)).
+  { unfold ConfigModel.own_config. apply map_filter_ext. intros e He. apply emit_rt. exact He. }
+  unfold ConfigModel.get_config. rewrite Hown, base_state_rt. reflexivity.
+Qed.
 End OneClass.
 End RoundTrip.
 
@@ -523,6 +636,15 @@ Proof.
   apply config_stable; assumption.
 Qed.
 
+(* The rebuilt object reports an equal config for EVERY constructor call (no
+   visibility guard): what get_config hides, it hides on both sides. *)
+Theorem config_stable_unguarded_generic : forall d,
+  roundtrip_okb d = true -> emits_okb d = true -> config_stable_for d.
+Proof.
+  intros d Hok He wo ser deser (H1 & H2 & H3) kw.
+  apply config_stable_strong; assumption.
+Qed.
+
 (* Known finding D23 (open): the four premade model classes take a `dtype`
    constructor argument that is stored nowhere; the guard names exactly that. *)
 Definition d23_premade_dtype (d : class_desc) (p : string) : bool :=
@@ -553,4 +675,38 @@ Lemma registry_covers_but_pwl_spec : forall reg cs,
   forallb (fun d => registered reg d || pwl_scoped d) cs = true -> registry_covers_but_pwl reg cs.
 Proof.
   intros reg cs H d Hd. rewrite forallb_forall in H. specialize (H _ Hd). apply orb_true_iff in H. exact H.
+Qed.
+
+(* Attributes that hold a constructor argument verbatim and survive the round
+   trip: used for the inputs of the seed-derived structures (RTL layer, random
+   ensembles), whose construction is a FUNCTION of these values (C17 model:
+   rtl_structure cfg sh1 sh2 with the shuffles determined by random_seed), so
+   equal values give equal structure. *)
+Definition attrs_survive (d : class_desc) (attrs : list string) : Prop :=
+  forall wrap_oracle ser deser, oracles_ok wrap_oracle ser deser ->
+  forall (kw : kwargs) (a : string), In a attrs ->
+    attr_val (init wrap_oracle d kw) a = arg d kw a /\
+    attr_val (rebuild wrap_oracle deser d (get_config ser d (init wrap_oracle d kw))) a = arg d kw a.
+
+Definition direct_attrb (d : class_desc) (a : string) : bool :=
+  match find_store_by_attr a (c_stores d) with
+  | Some s => String.eqb (ps_param s) a &&
+              match ps_how s, ps_cond s with Direct, None => true | _, _ => false end
+  | None => false
+  end.
+
+Theorem attrs_survive_generic : forall d attrs,
+  roundtrip_okb d = true -> hidden_pairs d = [] -> forallb (direct_attrb d) attrs = true ->
+  attrs_survive d attrs.
+Proof.
+  intros d attrs Hok Hh Hd wo ser deser Hor kw a Ha.
+  rewrite forallb_forall in Hd. specialize (Hd _ Ha). unfold direct_attrb in Hd.
+  assert (H1 : attr_val (init wo d kw) a = arg d kw a).
+  { unfold attr_val, init. simpl. rewrite assoc_stores.
+    destruct (find_store_by_attr a (c_stores d)) as [s|]; [|discriminate].
+    apply andb_true_iff in Hd. destruct Hd as [Hp Hh2]. apply String.eqb_eq in Hp.
+    simpl. unfold store_val. destruct (ps_how s); [|discriminate]. destruct (ps_cond s); [discriminate|].
+    simpl. rewrite Hp. reflexivity. }
+  split; [exact H1|].
+  rewrite (roundtrip_generic d Hok Hh wo ser deser Hor kw). exact H1.
 Qed.
